@@ -9,8 +9,9 @@ META = {
             'assembled), symbolic integer position; plus symbolic holes: a class attribute made of two tokens and a blank run of '
             'symbolic content, and a CSS value of two symbolic tokens.',
     'bounds': {
-        'quick': 'HTML documents of <=4 events, CSS documents of <=5 events, every integer position; class/value holes <=2 chars per token',
-        'thorough': 'HTML <=5 events, CSS <=6 events, 4 variant rotations',
+        'quick': 'HTML documents of <=4 events, CSS documents of <=5 events, every integer position; every ordered forest of 6 nodes in both languages (132 documents '
+                 'each, nested up to 6 deep); class/value holes <=2 chars per token',
+        'thorough': 'HTML <=5 events, CSS <=6 events, 4 variant rotations; forests of 7 nodes',
     },
     'outside_claim': ['get_open_tag() for positions inside a CLOSING tag (the statement speaks of open/self-closing tags)',
                       'declarations terminated by `}` in select_item_css (whether the brace belongs to the item is not stated)',
@@ -92,7 +93,7 @@ def mk_html(K, first, second, rot):
         for p in (0, 2, 9):
             wit.append(dict(k1=ks[1], k2=ks[2], k3=ks[3], k4=ks[4], pos=p))
     two = first in (H.OPEN, H.OPENA, H.SELF, H.VOID, H.SPECIAL) and second in (H.OPEN, H.OPENA, H.SELF, H.VOID, H.SPECIAL)
-    return {'fn': harness(False), 'twin': harness(True) if two else None, 'witnesses': wit,
+    return {'fn': harness(False), 'twin': harness(True) if two else None, 'witnesses': wit, 'check': check,
             'assumptions': ['HTML document = well-formed sequence of <=%d events (kinds as in C09), events 0,1 = %d,%d, rotation %d; pos '
                             'any integer' % (K, first, second, rot)],
             'functions': ['action_utils.html.get_open_tag', 'shift_attribute_ranges', 'select_next_item', 'select_previous_item',
@@ -259,11 +260,38 @@ def mk_css(K, first, second, rot):
         for p in (0, 3, 9, 14):
             wit.append(dict(k1=ks[1], k2=ks[2], k3=ks[3], k4=ks[4], k5=ks[5], pos=p))
     nested = first in (C.RULE, C.ATRULE) and second in (C.RULE, C.ATRULE) and K >= 4
-    return {'fn': harness(False), 'twin': harness(True) if nested else None, 'witnesses': wit,
+    return {'fn': harness(False), 'twin': harness(True) if nested else None, 'witnesses': wit, 'check': check,
             'assumptions': ['stylesheet = well-formed sequence of <=%d events (kinds as in C10), events 0,1 = %d,%d, rotation %d; pos any '
                             'integer except between a value end and its semicolon' % (K, first, second, rot)],
             'functions': ['action_utils.css.get_css_section', 'parse_properties', 'CSSProperty', 'select_next_item', 'select_previous_item',
                           'css_matcher.parse.split_value']}
+
+
+def mk_forest(lang, n, part, nparts, rot):
+    """documents deeper and wider than K events reach: every ordered forest of n nodes (see vf/gen/forest.py)"""
+    from vf.gen import forest
+    from vf.util import pick_int
+    words = [w for i, w in enumerate(forest.dyck(n)) if i % nparts == part]
+    if lang == 'html':
+        check = mk_html(4, H.OPEN, H.OPEN, rot)['check']
+        docs = [H.build(forest.html_kinds(w, rot, False, H), rot) for w in words]
+    else:
+        check = mk_css(5, C.RULE, C.RULE, rot)['check']
+        docs = [C.build(forest.css_kinds(w, rot, C), rot, stmts=True) for w in words]
+
+    def harness(wrong):
+        def h(i: int, pos: int):
+            if not (0 <= i < len(docs)):
+                return 'skip'
+            doc, items = docs[pick_int(i, 0, len(docs) - 1)]
+            return check(doc, items, pos, wrong)
+        return h
+    return {'fn': harness(False), 'twin': harness(True), 'witnesses': [dict(i=0, pos=1), dict(i=len(docs) - 1, pos=7)],
+            'assumptions': ['%s document = ordered forest %d mod %d of all %d forests with %d nodes (solver-chosen index), leaf/inner variants '
+                            'by rotation %d; pos any integer (css: except between a value end and its semicolon)' % (
+                                lang, part, nparts, len(forest.dyck(n)), n, rot)],
+            'functions': ['action_utils.html.get_open_tag/select_item_html' if lang == 'html' else
+                          'action_utils.css.get_css_section/parse_properties/select_item_css']}
 
 
 def mk_value_hole(n):
@@ -327,6 +355,13 @@ def jobs(tier):
                 out.append(Job('C17-b/css/K=%d,e0=%d,e1=%d,rot=%d' % (K, first, second, rot), 'vf.props.c17:mk_css',
                                dict(K=K, first=first, second=second, rot=rot), shape='H', bound='<=%d events' % K,
                                budget=1500 if q else 6000, weight=700))
+    n = 6 if q else 7
+    nparts = 6 if q else 16
+    for lang in ('html', 'css'):
+        for part in range(nparts):
+            out.append(Job('C17-c/forest/%s/n=%d,part%d' % (lang, n, part), 'vf.props.c17:mk_forest',
+                           dict(lang=lang, n=n, part=part, nparts=nparts, rot=0), shape='H', bound='forests of %d nodes' % n,
+                           budget=1500 if q else 6000, weight=900))
     out.append(Job('C17-b/value-hole', 'vf.props.c17:mk_value_hole', dict(n=2 if q else 3), shape='H', bound='tokens <=2 chars',
                    budget=1500, weight=800))
     return out
